@@ -125,12 +125,13 @@ func c18ResponseVal(raw []byte) Val {
 // ---------------------------------------------------------------- a server under test
 
 // c18Srv wraps one of the three servers so that a request can be handed to it in several ways.
-//   kind 0  server.go     Server.handlePacket called synchronously (verif hook), response read from a loopback socket
-//   kind 1  udp_server.go UDPServer.handlePacket, same
-//   kind 2  tcp_server.go TCPServer.handleMessage called synchronously (verif hook)
-//   kind 3  tcp_server.go through a real TCP connection (length-prefixed stream)
-//   kind 4  server.go     through the real serve loop (datagram sent to the bound port)
-//   kind 5  udp_server.go through the real serve loop
+//
+//	kind 0  server.go     Server.handlePacket called synchronously (verif hook), response read from a loopback socket
+//	kind 1  udp_server.go UDPServer.handlePacket, same
+//	kind 2  tcp_server.go TCPServer.handleMessage called synchronously (verif hook)
+//	kind 3  tcp_server.go through a real TCP connection (length-prefixed stream)
+//	kind 4  server.go     through the real serve loop (datagram sent to the bound port)
+//	kind 5  udp_server.go through the real serve loop
 type c18Srv struct {
 	kind  int
 	table *nbtns.NetBIOSNameServer
@@ -331,11 +332,13 @@ func implNbnsSession(a []Val) Val {
 
 // The routing probe: name X is registered (unique, owner A).  The request carries flags F, one
 // question for X and one answer record (X, A).  Each handler leaves a distinct trace:
-//   query         one answer, rcode 0               -> 0
-//   registration  rcode 7 (X is already registered) -> 1
-//   release       rcode 0 and X is gone             -> 2
-//   refresh       rcode 0, no answer, X still there -> 3
-//   none          rcode 4 (not implemented)         -> 4
+//
+//	query         one answer, rcode 0               -> 0
+//	registration  rcode 7 (X is already registered) -> 1
+//	release       rcode 0 and X is gone             -> 2
+//	refresh       rcode 0, no answer, X still there -> 3
+//	none          rcode 4 (not implemented)         -> 4
+//
 // anything else -> 5 + details.
 var c18ProbeName = "ROUTEPROBE"
 var c18ProbeOwner = []byte{0, 0, 10, 1, 2, 3}
